@@ -173,6 +173,9 @@ func TestC03RR(t *testing.T) {
 			return nil
 		}
 		evs := res.Events
+		if f := sameChannelRestart(p, evs); f != nil {
+			return f
+		}
 		firstHex := map[int]string{}
 		last, epochs, across := 0, 0, false
 		lastCh := -1
